@@ -53,6 +53,7 @@ func Load(spec LoadSpec) (*Program, error) {
 	}
 	prog, spkgs := ssautil.AllPackages(pkgs, ssa.InstantiateGenerics)
 	prog.Build()
+	fixEvalOrder(prog)
 	if len(spkgs) == 0 || spkgs[0] == nil {
 		return nil, fmt.Errorf("no package loaded for %s", spec.Pkg)
 	}
